@@ -141,6 +141,198 @@ where
     c: PreAlpha<C>,
 }
 
+/// A compact record format, in the manner of MessagePack / CBOR arrays: a struct is written as its declared number of
+/// fields followed by exactly that many bare values - no field names, no end marker - and read back as a sequence of
+/// exactly the written length. The serializer refuses a record whose number of fields differs from the declared one
+/// (binary formats size their records by it; JSON and RON ignore it), the deserializer refuses unread trailing values.
+mod rec {
+    use serde::de::{self, DeserializeOwned, DeserializeSeed, SeqAccess, Visitor};
+    use serde::ser::{self, Serialize};
+    use std::fmt;
+
+    #[derive(Clone, Debug, PartialEq)]
+    pub enum Tok {
+        U(u128, u8),
+        F32(u32),
+        F64(u64),
+        Unit,
+        Rec(usize),
+    }
+    impl Tok {
+        pub fn bits(&self) -> Option<u128> {
+            match self {
+                Tok::U(v, _) => Some(*v),
+                Tok::F32(b) => Some(*b as u128),
+                Tok::F64(b) => Some(*b as u128),
+                _ => None,
+            }
+        }
+    }
+    #[derive(Debug)]
+    pub struct Error(pub String);
+    impl fmt::Display for Error {
+        fn fmt(&self, f: &mut fmt::Formatter) -> fmt::Result {
+            f.write_str(&self.0)
+        }
+    }
+    impl std::error::Error for Error {}
+    impl ser::Error for Error {
+        fn custom<T: fmt::Display>(m: T) -> Self {
+            Error(m.to_string())
+        }
+    }
+    impl de::Error for Error {
+        fn custom<T: fmt::Display>(m: T) -> Self {
+            Error(m.to_string())
+        }
+    }
+
+    pub struct Ser<'a> {
+        out: &'a mut Vec<Tok>,
+    }
+    pub struct Compound<'a> {
+        out: &'a mut Vec<Tok>,
+        declared: usize,
+        written: usize,
+    }
+    impl<'a> Compound<'a> {
+        fn field<T: ?Sized + Serialize>(&mut self, v: &T) -> Result<(), Error> {
+            self.written += 1;
+            v.serialize(Ser { out: &mut *self.out })
+        }
+        fn finish(self) -> Result<(), Error> {
+            if self.written != self.declared {
+                return Err(Error(format!("record declared with {} fields but {} were written", self.declared, self.written)));
+            }
+            Ok(())
+        }
+    }
+    macro_rules! unsupported {
+        ($($f:ident($($t:ty),*))*) => {$( fn $f(self $(, _: $t)*) -> Result<(), Error> { Err(Error(concat!(stringify!($f), " is not part of the compact record format").into())) } )*};
+    }
+    impl<'a> ser::Serializer for Ser<'a> {
+        type Ok = ();
+        type Error = Error;
+        type SerializeSeq = Compound<'a>;
+        type SerializeTuple = Compound<'a>;
+        type SerializeTupleStruct = Compound<'a>;
+        type SerializeTupleVariant = ser::Impossible<(), Error>;
+        type SerializeMap = ser::Impossible<(), Error>;
+        type SerializeStruct = Compound<'a>;
+        type SerializeStructVariant = ser::Impossible<(), Error>;
+        fn serialize_u8(self, v: u8) -> Result<(), Error> { self.out.push(Tok::U(v as u128, 8)); Ok(()) }
+        fn serialize_u16(self, v: u16) -> Result<(), Error> { self.out.push(Tok::U(v as u128, 16)); Ok(()) }
+        fn serialize_u32(self, v: u32) -> Result<(), Error> { self.out.push(Tok::U(v as u128, 32)); Ok(()) }
+        fn serialize_u64(self, v: u64) -> Result<(), Error> { self.out.push(Tok::U(v as u128, 64)); Ok(()) }
+        fn serialize_f32(self, v: f32) -> Result<(), Error> { self.out.push(Tok::F32(v.to_bits())); Ok(()) }
+        fn serialize_f64(self, v: f64) -> Result<(), Error> { self.out.push(Tok::F64(v.to_bits())); Ok(()) }
+        fn serialize_unit(self) -> Result<(), Error> { self.out.push(Tok::Unit); Ok(()) }
+        fn serialize_unit_struct(self, _: &'static str) -> Result<(), Error> { self.out.push(Tok::Unit); Ok(()) }
+        unsupported! { serialize_bool(bool) serialize_i8(i8) serialize_i16(i16) serialize_i32(i32) serialize_i64(i64) serialize_char(char) serialize_str(&str) serialize_bytes(&[u8]) serialize_none() serialize_unit_variant(&'static str, u32, &'static str) }
+        fn serialize_some<T: ?Sized + Serialize>(self, _: &T) -> Result<(), Error> { Err(Error("option".into())) }
+        fn serialize_newtype_struct<T: ?Sized + Serialize>(self, _: &'static str, v: &T) -> Result<(), Error> { v.serialize(self) }
+        fn serialize_newtype_variant<T: ?Sized + Serialize>(self, _: &'static str, _: u32, _: &'static str, _: &T) -> Result<(), Error> { Err(Error("variant".into())) }
+        fn serialize_seq(self, len: Option<usize>) -> Result<Compound<'a>, Error> {
+            let n = len.ok_or_else(|| Error("a sequence needs its length up front".into()))?;
+            self.out.push(Tok::Rec(n));
+            Ok(Compound { out: self.out, declared: n, written: 0 })
+        }
+        fn serialize_tuple(self, n: usize) -> Result<Compound<'a>, Error> { self.serialize_seq(Some(n)) }
+        fn serialize_tuple_struct(self, _: &'static str, n: usize) -> Result<Compound<'a>, Error> { self.serialize_seq(Some(n)) }
+        fn serialize_tuple_variant(self, _: &'static str, _: u32, _: &'static str, _: usize) -> Result<Self::SerializeTupleVariant, Error> { Err(Error("variant".into())) }
+        fn serialize_map(self, _: Option<usize>) -> Result<Self::SerializeMap, Error> { Err(Error("maps are not part of the compact record format".into())) }
+        fn serialize_struct(self, _: &'static str, n: usize) -> Result<Compound<'a>, Error> { self.serialize_seq(Some(n)) }
+        fn serialize_struct_variant(self, _: &'static str, _: u32, _: &'static str, _: usize) -> Result<Self::SerializeStructVariant, Error> { Err(Error("variant".into())) }
+    }
+    impl<'a> ser::SerializeSeq for Compound<'a> {
+        type Ok = ();
+        type Error = Error;
+        fn serialize_element<T: ?Sized + Serialize>(&mut self, v: &T) -> Result<(), Error> { self.field(v) }
+        fn end(self) -> Result<(), Error> { self.finish() }
+    }
+    impl<'a> ser::SerializeTuple for Compound<'a> {
+        type Ok = ();
+        type Error = Error;
+        fn serialize_element<T: ?Sized + Serialize>(&mut self, v: &T) -> Result<(), Error> { self.field(v) }
+        fn end(self) -> Result<(), Error> { self.finish() }
+    }
+    impl<'a> ser::SerializeTupleStruct for Compound<'a> {
+        type Ok = ();
+        type Error = Error;
+        fn serialize_field<T: ?Sized + Serialize>(&mut self, v: &T) -> Result<(), Error> { self.field(v) }
+        fn end(self) -> Result<(), Error> { self.finish() }
+    }
+    impl<'a> ser::SerializeStruct for Compound<'a> {
+        type Ok = ();
+        type Error = Error;
+        fn serialize_field<T: ?Sized + Serialize>(&mut self, _: &'static str, v: &T) -> Result<(), Error> { self.field(v) }
+        fn end(self) -> Result<(), Error> { self.finish() }
+    }
+    pub fn to_tokens<T: Serialize>(v: &T) -> Result<Vec<Tok>, Error> {
+        let mut out = Vec::new();
+        v.serialize(Ser { out: &mut out })?;
+        Ok(out)
+    }
+
+    pub struct De<'t> {
+        toks: &'t [Tok],
+        pos: usize,
+    }
+    struct Seq<'d, 't> {
+        de: &'d mut De<'t>,
+        left: usize,
+    }
+    impl<'de, 'd, 't> SeqAccess<'de> for Seq<'d, 't> {
+        type Error = Error;
+        fn next_element_seed<S: DeserializeSeed<'de>>(&mut self, seed: S) -> Result<Option<S::Value>, Error> {
+            if self.left == 0 {
+                return Ok(None);
+            }
+            self.left -= 1;
+            seed.deserialize(&mut *self.de).map(Some)
+        }
+        fn size_hint(&self) -> Option<usize> {
+            Some(self.left)
+        }
+    }
+    impl<'de, 'd, 't> de::Deserializer<'de> for &'d mut De<'t> {
+        type Error = Error;
+        fn deserialize_any<V: Visitor<'de>>(self, visitor: V) -> Result<V::Value, Error> {
+            let t = self.toks.get(self.pos).cloned().ok_or_else(|| Error("unexpected end of the record".into()))?;
+            self.pos += 1;
+            match t {
+                Tok::U(v, 8) => visitor.visit_u8(v as u8),
+                Tok::U(v, 16) => visitor.visit_u16(v as u16),
+                Tok::U(v, 32) => visitor.visit_u32(v as u32),
+                Tok::U(v, _) => visitor.visit_u64(v as u64),
+                Tok::F32(b) => visitor.visit_f32(f32::from_bits(b)),
+                Tok::F64(b) => visitor.visit_f64(f64::from_bits(b)),
+                Tok::Unit => visitor.visit_unit(),
+                Tok::Rec(n) => {
+                    let mut seq = Seq { de: &mut *self, left: n };
+                    let v = visitor.visit_seq(&mut seq)?;
+                    if seq.left != 0 {
+                        return Err(Error(format!("{} values of the record were not read", seq.left)));
+                    }
+                    Ok(v)
+                }
+            }
+        }
+        fn deserialize_newtype_struct<V: Visitor<'de>>(self, _: &'static str, visitor: V) -> Result<V::Value, Error> {
+            visitor.visit_newtype_struct(self)
+        }
+        serde::forward_to_deserialize_any! { bool i8 i16 i32 i64 i128 u8 u16 u32 u64 u128 f32 f64 char str string bytes byte_buf option unit unit_struct seq tuple tuple_struct map struct enum identifier ignored_any }
+    }
+    pub fn from_tokens<T: DeserializeOwned>(toks: &[Tok]) -> Result<T, Error> {
+        let mut de = De { toks, pos: 0 };
+        let v = T::deserialize(&mut de)?;
+        if de.pos != toks.len() {
+            return Err(Error(format!("{} trailing values", toks.len() - de.pos)));
+        }
+        Ok(v)
+    }
+}
+
 fn bits_of<C: ArrayCast<Array = [T; N]> + Copy, T: Comp, const N: usize>(c: &C) -> Vec<u128> {
     let a: [T; N] = cast::into_array(*c);
     a.iter().map(|v| v.bits()).collect()
@@ -193,6 +385,22 @@ where
     match serde_json::from_str::<C>(&text) {
         Ok(d) if same(&d) => {}
         other => m.violate(inst, "json_round_trip", inp(), json!(format!("{:?}", other.map_err(|e| e.to_string()))), json!(format!("{:?}", c)), &text),
+    }
+    // ---- compact record form: declared field count = fields written, one flat record in cast order (alpha last), and
+    // the same colour back from a sequence of exactly that length
+    m.evals(2);
+    match rec::to_tokens(&c) {
+        Ok(toks) => {
+            let flat = toks.first() == Some(&rec::Tok::Rec(N)) && toks.len() == N + 1 && toks[1..].iter().zip(want.iter()).all(|(t, w)| t.bits() == Some(*w));
+            if !flat {
+                m.violate(inst, "compact_record_shape", inp(), json!(format!("{:?}", toks)), json!({"record_of": N, "values": "the components in cast order, alpha last, at one level"}), "");
+            }
+            match rec::from_tokens::<C>(&toks) {
+                Ok(d) if same(&d) => {}
+                other => m.violate(inst, "compact_record_round_trip", inp(), json!(format!("{:?}", other.map_err(|e| e.to_string()))), json!(format!("{:?}", c)), &format!("{:?}", toks)),
+            }
+        }
+        Err(e) => m.violate(inst, "compact_record_not_serializable", inp(), json!(e.to_string()), json!("a record of the colour's fields"), ""),
     }
     // fields in another order (alpha first, reversed)
     if let Value::Object(map) = &v {
